@@ -344,8 +344,8 @@ class Ctx:
             if sc is None or not isinstance(sc.node, ast.FunctionDef):
                 continue
             known = KNOWN_PARAMS.get("%s::%s" % (spec.module.relpath, sc.qualname))
-            if known is None or n in known:
-                continue
+            if known is None or n in known or any(k not in sc.params for k in known):
+                continue        # (a function that lost one of its parameters was renamed into, not added to: every parameter keeps its full domain)
             a = sc.node.args
             pos = a.posonlyargs + a.args
             dflt = None
@@ -355,6 +355,8 @@ class Ctx:
             elif n in [x.arg for x in a.kwonlyargs]:
                 dflt = a.kw_defaults[[x.arg for x in a.kwonlyargs].index(n)]
             if not isinstance(dflt, ast.Constant) or not (dflt.value is None or isinstance(dflt.value, bool)):
+                continue
+            if not self._ext_unused(spec.module, sc.node, n, dflt):
                 continue
             v = "None" if dflt.value is None else str(dflt.value)
             if v in space[n]:
@@ -390,13 +392,18 @@ class Ctx:
             for cfg in valuations(space):
                 yield kind, cfg, self.paths(spec, kind, cfg, max_iter)
 
-    def fn_paths(self, module, fn, cfg=None, extra_env=None, max_iter=None, inline=True, roles=None, ctxb=None, no_inline=(), only_inline=None):
+    def fn_paths(self, module, fn, cfg=None, extra_env=None, max_iter=None, inline=True, roles=None, ctxb=None, no_inline=(), only_inline=None, bind_own_ext=False):
         """Paths of a plain function (no event kind); ctxb binds parameters of the enclosing factories."""
         spec = HandlerSpec(module, fn, None, roles=roles, ctx=ctxb)
         mi = max_iter or self.max_iter
         ext = self._fn_ext_cfg(module, fn)
         if ext:
             cfg = dict(ext, **(cfg or {}))
+            # ... the function's own extension parameters are its arguments, not configuration: bound to their default value
+            own = module.scopes.get(fn)
+            mine = {n: ("const", {"None": None, "True": True, "False": False}[v]) for n, v in ext.items() if own is not None and n in own.params}
+            if mine and bind_own_ext:
+                extra_env = dict(mine, **(extra_env or {}))
         key = ("fn", id(fn), tuple(sorted((cfg or {}).items())), mi, tuple(sorted((extra_env or {}).items())), inline, spec.ctx_key,
                tuple(id(f) for f in no_inline), None if only_inline is None else tuple(sorted(id(f) for f in only_inline)))
         if key not in self._cache:
@@ -404,6 +411,105 @@ class Ctx:
             self.total_paths += len(ps)
             self._cache[key] = ps
         return self._cache[key]
+
+
+def _ext_unused(self, module, fnode, name, dflt, depth=0):
+    """no call inside rxsci gives the (new) parameter *name* of fnode anything but its default: absent, the same literal, or the
+    caller's own extension parameter of the same default handed through (take(count, until=None) -> take_mux(count, until)).  A
+    parameter the repository itself sets is not an unused option: the handlers keep its full domain."""
+    from .known_params import KNOWN_PARAMS
+    from .loader import dotted_name
+    key = ("extunused", id(fnode), name)
+    if key in self._cache:
+        return self._cache[key]
+    self._cache[key] = True            # (recursion through mutually forwarding wrappers)
+    ok = True
+    a = fnode.args
+    pos = [x.arg for x in a.posonlyargs + a.args]
+    for rel2, m2 in self.program.by_relpath.items():
+        if not rel2.startswith("rxsci/"):
+            continue
+        for c in ast.walk(m2.tree):
+            if not isinstance(c, ast.Call):
+                continue
+            last = c.func.attr if isinstance(c.func, ast.Attribute) else (c.func.id if isinstance(c.func, ast.Name) else None)
+            if last != fnode.name:
+                continue
+            dn = dotted_name(c.func)
+            ref = self.program.resolve_dotted(m2, dn) if dn else None
+            resolved = bool(ref) and ref[0] == "def"
+            if resolved and ref[2] is not fnode:
+                continue
+            if not resolved and isinstance(c.func, ast.Attribute) and not (pos and pos[0] == "self"):
+                continue        # a method of some object that happens to have the function's name (decompressor.decompress(i))
+            if not resolved and isinstance(c.func, ast.Name):
+                from .model import _lookup_def
+                d = _lookup_def(m2, m2.enclosing_function(c), c.func.id)
+                if d is not None and d is not fnode:
+                    continue
+            given = None
+            shift = 0 if (resolved or isinstance(c.func, ast.Name)) else (1 if pos and pos[0] == "self" else 0)
+            for k, x in enumerate(c.args):
+                if isinstance(x, ast.Starred):
+                    given = x
+                    break
+                if k + shift < len(pos) and pos[k + shift] == name:
+                    given = x
+            for kw in c.keywords:
+                if kw.arg == name or kw.arg is None:
+                    given = kw.value
+            if given is None:
+                continue
+            if isinstance(given, ast.Constant) and given.value is dflt.value and type(given.value) is type(dflt.value):
+                continue
+            if isinstance(given, ast.Name) and depth < 4:
+                cf = m2.enclosing_function(c)
+                owner = None
+                while cf is not None:
+                    scx = m2.scopes.get(cf)
+                    if scx is not None and given.id in scx.params:
+                        owner = scx
+                        break
+                    if scx is not None and given.id in scx.locals:
+                        break
+                    cf = m2.enclosing_function(cf)
+                if owner is not None and isinstance(owner.node, ast.FunctionDef):
+                    known = KNOWN_PARAMS.get("%s::%s" % (rel2, owner.qualname))
+                    d2 = _default_of(owner.node, given.id)
+                    if known is not None and given.id not in known and isinstance(d2, ast.Constant) and d2.value is dflt.value \
+                            and self._ext_unused(m2, owner.node, given.id, d2, depth + 1):
+                        continue
+            ok = False
+            break
+        if not ok:
+            break
+    self._cache[key] = ok
+    return ok
+
+
+def _default_of(fnode, name):
+    a = fnode.args
+    pos = a.posonlyargs + a.args
+    names = [x.arg for x in pos]
+    if name in names:
+        k = names.index(name) - (len(pos) - len(a.defaults))
+        return a.defaults[k] if k >= 0 else None
+    kn = [x.arg for x in a.kwonlyargs]
+    if name in kn:
+        return a.kw_defaults[kn.index(name)]
+    return None
+
+
+Ctx._ext_unused = _ext_unused
+
+
+def _is_extension(self, spec, name):
+    """the parameter is one the pinned tree's function did not have; the handlers see it at its default only"""
+    self.space(spec)
+    return name in self._ext_cfg.get((id(spec.fn), spec.ctx_key), {})
+
+
+Ctx.is_extension = _is_extension
 
 
 def _fn_ext_cfg(self, module, fn):
@@ -417,7 +523,7 @@ def _fn_ext_cfg(self, module, fn):
     while sc is not None:
         if isinstance(sc.node, ast.FunctionDef):
             known = KNOWN_PARAMS.get("%s::%s" % (module.relpath, sc.qualname))
-            if known is not None:
+            if known is not None and not any(k not in sc.params for k in known):
                 a = sc.node.args
                 pos = a.posonlyargs + a.args
                 dmap = {}
@@ -427,7 +533,8 @@ def _fn_ext_cfg(self, module, fn):
                     if d is not None:
                         dmap[x.arg] = d
                 for n, d in dmap.items():
-                    if n not in known and n not in out and isinstance(d, ast.Constant) and (d.value is None or isinstance(d.value, bool)):
+                    if n not in known and n not in out and isinstance(d, ast.Constant) and (d.value is None or isinstance(d.value, bool)) \
+                            and self._ext_unused(module, sc.node, n, d):
                         out[n] = "None" if d.value is None else str(d.value)
                         self.extensions.setdefault("%s::%s" % (module.relpath, sc.qualname), set()).add("%s=%s" % (n, out[n]))
         sc = sc.parent
